@@ -19,6 +19,7 @@ class FixedContext___init__(Contract):
     properties = ['C01']
     binds = {'self.rng': 'rng'}
     split = ['signed']
+    no_use = ['MPBFixedContext.__init__']     # super().__init__ on the subclass receiver: inlined
 
     def post(self, signed, scale, nbits, rm, overflow, num_randbits, rng, result):
         return {
@@ -51,6 +52,7 @@ class SMFixedContext___init__(Contract):
     returns = 'None'
     properties = ['C01']
     binds = {'self.rng': 'rng'}
+    no_use = ['MPBFixedContext.__init__']     # super().__init__ on the subclass receiver: inlined
 
     def post(self, scale, nbits, rm, overflow, num_randbits, rng, result):
         return {
@@ -81,8 +83,9 @@ class IEEEContext___init__(Contract):
     returns = 'None'
     properties = ['C01']
     binds = {'self.rng': 'rng'}
+    no_use = ['EFloatContext.__init__']       # super().__init__ on the subclass receiver: inlined
     options = {'noax_first_ms': 8000, 'light_theory': True,
-               'opaque': {'fits_p': ['all', 'bool'], 'grid_ok': ['all', 'bool'], 'mag_lt_ec': ['all', 'bool']}}
+               'opaque': {'fits_p': ['all', 'bool'], 'mag_lt_ec': ['all', 'bool']}}
 
     def post(self, es, nbits, rm, overflow, num_randbits, rng, result):
         return {
